@@ -2,6 +2,26 @@ import TsVerif.C09.Model
 /-!
 # C09 — lemmas about the `U8_NEXT` port
 -/
+namespace TsVerif.Utf
+
+theorem decode16_bmp (be : Bool) (a b : Nat) (rest : List Nat)
+    (h : ¬ (0xD800 ≤ unit16 be a b ∧ unit16 be a b < 0xDC00)) (sw : Bool) :
+    decodeUtf16 be (a :: b :: rest) sw = (((unit16 be a b : Nat) : Int), 2) := by
+  simp only [decodeUtf16, h, if_false]
+
+theorem decode16_pair (be : Bool) (a b a2 b2 : Nat) (rest : List Nat)
+    (h : 0xD800 ≤ unit16 be a b ∧ unit16 be a b < 0xDC00)
+    (h2 : 0xDC00 ≤ unit16 be a2 b2 ∧ unit16 be a2 b2 < 0xE000) :
+    decodeUtf16 be (a :: b :: a2 :: b2 :: rest) true =
+      (((unit16 be a b * 1024 + unit16 be a2 b2 - SURROGATE_OFFSET : Nat) : Int), 4) := by
+  simp only [decodeUtf16, h, h2, and_self, if_true]
+
+theorem unit16_bytes (be : Bool) (u : Nat) :
+    (if be then unit16 be (u / 256) (u % 256) else unit16 be (u % 256) (u / 256)) = u := by
+  cases be <;> simp [unit16] <;> omega
+
+end TsVerif.Utf
+
 namespace TsVerif.C09
 open TsVerif.Utf TsVerif.Lex
 
